@@ -68,7 +68,14 @@ fn gen_pair(rng: &mut Rng, nfiles: usize, big: bool) -> String {
             bigs += 1;
         }
         match rng.below(4) {
-            0 => a.push(format!("{}:{}", p, c)),
+            0 => {
+                // only in A; now and then a zero-byte file (allowed in the old tree)
+                if rng.chance(1, 8) {
+                    a.push(format!("{}:-", p));
+                } else {
+                    a.push(format!("{}:{}", p, c));
+                }
+            }
             1 => b.push(format!("{}:{}", p, c)),
             2 => {
                 a.push(format!("{}:{}", p, c));
@@ -126,7 +133,7 @@ pub fn generate(thorough: bool, seed: u64, out: &mut dyn Write) {
         writeln!(out, "cbytes a=d0/f0:~{}.7 b=d0/f0:~{}.9", n, n).unwrap();
         writeln!(out, "cbytes a=f0:01 b=d1/Dir_2/f1.bin:~{}.3", n).unwrap();
     }
-    let n = if thorough { 5000 } else { 150 };
+    let n = if thorough { 30_000 } else { 150 };
     for i in 0..n {
         let nfiles = match rng.below(6) {
             0 => rng.range(0, 2),
